@@ -4,7 +4,7 @@
    the implementation by the check's oracle (the file is compared with the sessions' view after
    every command); the model carries the sequence names per message, whose complement law is
    proved below. *)
-From Asimap Require Import Base.Res Spec.SetSem Model.Mbox Model.MhSeq Proofs.MboxInv Proofs.MboxStep Proofs.MboxLe Proofs.MboxExact Proofs.MboxFlags Proofs.MhSeqP Proofs.MhSeqWorld.
+From Asimap Require Import Base.Res Spec.SetSem Model.Mbox Model.MhSeq Proofs.MboxInv Proofs.MboxStep Proofs.MboxLe Proofs.MboxExact Proofs.MboxFlags Proofs.MhSeqP Proofs.MhSeqWorld Proofs.MboxKeys.
 From Coq Require Import Sorting.Sorted.
 Open Scope Z_scope.
 
@@ -88,6 +88,13 @@ Theorem C13_other_sequences_untouched : forall msg_keys s recent name,
 Proof. exact update_seen_others. Qed.
 Print Assumptions C13_other_sequences_untouched.
 
+(* a second look at an unchanged folder derives the same sets (no flapping between polls) *)
+Theorem C13_second_look_changes_nothing : forall msg_keys s recent name k,
+  In k (seq_of (update_seen msg_keys (update_seen msg_keys s recent) []) name) <->
+  In k (seq_of (update_seen msg_keys s recent) name).
+Proof. exact update_seen_idempotent. Qed.
+Print Assumptions C13_second_look_changes_nothing.
+
 (* the two models meet: the server's sequences are the transpose of the world model's per-message
    sequence names; whatever the folder's file said before and whatever the server has just removed,
    after the write an MH tool finds a message the server knows under a name exactly when the world
@@ -99,6 +106,25 @@ Theorem C13_mh_tool_reads_world_flags : forall names msgs forget folder name m,
    <-> has_seq name m = true).
 Proof. exact mh_tool_reads_world_flags. Qed.
 Print Assumptions C13_mh_tool_reads_world_flags.
+
+(* the hypotheses hold in every reachable world: message numbers are positive and strictly ascending
+   (known messages in list order, then the files not taken in yet) after any history of commands,
+   deliveries, packs and restarts ... *)
+Theorem C13_message_numbers_ascending : forall ps pn pd ops n b,
+  get_box (fst (run (init_world ps pn pd) ops)) n = Some b ->
+  StronglySorted Z.lt (map m_key (b_msgs b)) /\ Forall (fun k => 0 <= k) (map m_key (b_msgs b)).
+Proof. exact reachable_keys_ascending. Qed.
+Print Assumptions C13_message_numbers_ascending.
+
+(* ... so for every mailbox of every reachable world: after the server has written `.mh_sequences`, an MH
+   tool finds each message the server knows under a sequence name exactly when the message carries it *)
+Theorem C13_reachable_mh_tool_reads_world_flags : forall ps pn pd ops n b names forget folder name m,
+  get_box (fst (run (init_world ps pn pd) ops)) n = Some b ->
+  In m (b_msgs b) -> In name names ->
+  (In (m_key m) (seq_of (written (map m_key (b_msgs b)) (seqs_of_msgs names (b_msgs b)) forget folder) name)
+   <-> has_seq name m = true).
+Proof. exact reachable_mh_tool_reads_world_flags. Qed.
+Print Assumptions C13_reachable_mh_tool_reads_world_flags.
 
 Theorem C13_no_sequence_invented : forall names msgs name k,
   In k (seq_of (seqs_of_msgs names msgs) name) -> exists m, In m msgs /\ m_key m = k /\ has_seq name m = true.
